@@ -6,13 +6,14 @@ import ast, json, os, sys
 V = os.path.dirname(os.path.dirname(os.path.abspath(__file__)))
 sys.path.insert(0, V)
 from pmverif.core import Program
-from pmverif.norm import Resolver, assigned_names
+from pmverif.norm import Resolver, assigned_names, shape_of
 prog = Program()
 out = {}
 for fn in prog.all_funcs():
     from pmverif.core import walk_own
     out[fn.key] = {
         "names": sorted({n.id for n in ast.walk(fn.node) if isinstance(n, ast.Name)} | {a.arg for a in ast.walk(fn.node) if isinstance(a, ast.arg)}),
+        "shape": shape_of(fn.node),
         "locals": sorted((assigned_names([fn.node]) | set(fn.params())) - {fn.name}),
         "defs": {k: " ".join(ast.unparse(e).split()) for k, e in sorted(Resolver(fn.node).defs.items())},
         "returns": sorted(" ".join(ast.unparse(r.value).split()) if r.value is not None else "None" for r in walk_own(fn.node) if isinstance(r, ast.Return)),
